@@ -1,6 +1,6 @@
 """C14 - String functions operate on characters (code points) and are mutually consistent."""
 import copy, os, re
-from lib import driver as D, machine as M
+from lib import driver as D, machine as M, nodetrace as NT
 
 MUTANTS = ["byteLength", "substringBytes", "indexOfBytes", "noBoundsCheck", "negLengthIsRest",
            "containsPrefixOnly", "replaceFirstOnly"]
@@ -70,6 +70,11 @@ def run(ctx):
     ctx.extra["patients_via_jsonformat"] = sum(1 for o in obs if o.get("res") == "jsonformat")
     # programs of the whole abstract machine whose last step is one of this property's operations (lib/machine.py)
     verdicts = M.extend(ctx, verdicts, by_id)
+    # node-level trace validation (spec/FPNodeTrace.tla): every node inside the repository's own tests, inside the machine
+    # programs and inside a spread of the cases above is a checked transition; the value laws apply this property's reference
+    # module to the logged values of every node's operands
+    verdicts = NT.extend(ctx, verdicts, by_id, reruns=[
+        (binary, ["run", NT.sample_cases(ctx, ctx.path("cases.ndjson"), 1500 if ctx.tier == "quick" else 12000), ctx.path("obs_traced.ndjson")])])
     return D.finish(
         ctx, verdicts, by_id, evaluations=len(obs),
         rule="every string over {a, b, U+00E9, U+20AC, U+1F600, U+0301} up to the tier's length x every function x every "
